@@ -11,7 +11,7 @@ PID = 'C11'
 SIZES = {
     # tier: (xsd expressions, xpath expressions, mutants per dialect, chunk)
     'quick': (2300, 700, 330, 60),
-    'thorough': (24000, 8000, 2200, 60),
+    'thorough': (16000, 5500, 1500, 60),
     'tiny': (300, 120, 66, 60),       # development only
 }
 XPATH_FLAGS = ['', '', '', 'i', 's', 'm', 'x', 'im', 'sm', 'is', 'ix', 'ims']
@@ -251,17 +251,22 @@ def resymbolize(rec):
     if not raw:
         return
     import subprocess
-    frames = []
-    for _, mod, off in raw[:40]:
-        fn = '?'
+    raw = raw[:16]
+    names = {}
+    for mod in {m for _, m, _ in raw if 'libxerces-c' in m}:
+        offs = [o for _, m, o in raw if m == mod]
         try:
-            out = subprocess.run([core.SAN_ENV.get('ASAN_SYMBOLIZER_PATH', 'llvm-symbolizer'), '--obj=' + mod, '0x' + off],
-                                 capture_output=True, text=True, timeout=60).stdout.splitlines()
-            if out and out[0].strip() and out[0].strip() != '??':
-                fn = core._fn_name(out[0])
+            # one symboliser process per module (loading the debug info of the library dominates)
+            out = subprocess.run([core.SAN_ENV.get('ASAN_SYMBOLIZER_PATH', 'llvm-symbolizer'), '--obj=' + mod, '--no-inlines'] + ['0x' + o for o in offs],
+                                 capture_output=True, text=True, timeout=600).stdout
+            blocks = [b for b in out.split('\n\n') if b.strip()]
+            for o, b in zip(offs, blocks):
+                l0 = b.strip().splitlines()[0].strip()
+                if l0 and l0 != '??':
+                    names[(mod, o)] = core._fn_name(l0)
         except Exception:
             pass
-        frames.append((fn, 'libxerces-c' in mod))
+    frames = [(names.get((m, o), '?'), 'libxerces-c' in m) for _, m, o in raw]
     if any(inlib and fn != '?' for fn, inlib in frames):
         cr.frames = frames
 
